@@ -14,6 +14,7 @@ EXTENDS Ref
 CONSTANT BumpGuard
 
 DEPTH_STEP == 1000
+PanicErrs == {"panic-token-index", "panic-unknown-token", "panic-compile-index", "no-unary"}
 
 IsUnaryAt(T, toks, j) == toks[j].t = "op" /\ ~IsBinAt(T, toks, j)
 \* is_operator_binary returns Err for a binary-only operator right of another operator
